@@ -128,6 +128,27 @@ def check_chunk(args):
                         fails.append(dict(layer="G", tags=sorted(tg | {"via.if"}), symptom="wrong-if-truth",
                                           detail=f"{desc} ;; #if {expr} -> {r}", case=case))
                         break
+            # history: #undef O / #define O <new body> on the SAME platform (same macro objects for F
+            # and G), then the same line again: the result must be that of the new table
+            if via == "define" and not case["ill2"]:
+                stats["evals"] += 1
+                try:
+                    undef = pp.DirectiveParser(pp.Lexer("#undef O").tokenize()).parse()
+                    undef.evaluate_for_platform(platform=plat, filename="x.c", state=None)
+                    if case["redef"]["body"] != ["__UNDEF__"]:
+                        h2, b2 = define_text(case["redef"])
+                        node = pp.DirectiveParser(pp.Lexer(f"#define {h2} {b2}".rstrip()).tokenize()).parse()
+                        node.evaluate_for_platform(platform=plat, filename="x.c", state=None)
+                    got2 = [t.spelling()[0] for t in pp.MacroExpander(plat).expand(pp.Lexer(" ".join(case["inv"])).tokenize())]
+                except Exception as e:  # noqa
+                    fails.append(dict(layer="G", tags=sorted(tg | {"history.redefine"}), symptom=f"exception:{type(e).__name__}",
+                                      detail=f"{desc} ;; after redefining O as {case['redef']['body']}: {' '.join(case['inv'])}", case=case))
+                    break
+                if norm(got2) != norm(case["out2"]):
+                    fails.append(dict(layer="G", tags=sorted(tg | {"history.redefine"}), symptom="wrong-expansion-after-redefinition",
+                                      detail=f"{desc} ;; then #undef O / #define O {' '.join(case['redef']['body'])} ;; "
+                                             f"{' '.join(case['inv'])} -> {' '.join(got2)} ; ISO C: {' '.join(case['out2'])}", case=case))
+                    break
     return fails, stats
 
 
